@@ -32,7 +32,7 @@ fn hex(b: &[u8], upper: bool, sep: &str) -> String {
     b.iter().map(|x| if upper { format!("{x:02X}") } else { format!("{x:02x}") }).collect::<Vec<_>>().join(sep)
 }
 
-fn base64(b: &[u8]) -> String {
+pub fn base64(b: &[u8]) -> String {
     const T: &[u8; 64] = b"ABCDEFGHIJKLMNOPQRSTUVWXYZabcdefghijklmnopqrstuvwxyz0123456789+/";
     let mut o = String::new();
     for c in b.chunks(3) {
@@ -46,7 +46,7 @@ fn base64(b: &[u8]) -> String {
 }
 
 /// (encoding name, needle) pairs for a secret
-fn encodings(secret: &[u8]) -> Vec<(&'static str, String)> {
+pub fn encodings(secret: &[u8]) -> Vec<(&'static str, String)> {
     let mut v = Vec::new();
     if let Ok(s) = std::str::from_utf8(secret) {
         v.push(("clear", s.to_string()));
@@ -90,7 +90,11 @@ fn key_material() -> Vec<Vec<u8>> {
 }
 
 fn run(ctx: &mut Ctx) -> Verdict {
-    let kind = if ctx.pick(2) == 0 { Kind::Ssh } else { Kind::Tls };
+    let kind = match ctx.tape.weighted(&[2, 2, 3]) {
+        0 => Kind::Ssh,
+        1 => Kind::Tls,
+        _ => return super::c20_agent::run(ctx),
+    };
     let password = PASSWORDS[ctx.pick(PASSWORDS.len())].to_string();
     let filter = FILTERS[ctx.tape.weighted(&[6, 3, 1, 2, 2, 2, 2, 1])];
     let outcome_kind = ctx.tape.weighted(&[4, 3, 2]);
@@ -156,17 +160,21 @@ pub static C20: PropSpec = PropSpec {
     id: "C20",
     simulator: "R-sim",
     level: "exploration",
-    runs: |t| if t == Tier::Thorough { 6_000 } else { 400 },
+    runs: |t| if t == Tier::Thorough { 20_000 } else { 1_500 },
     enumerated: |_| 0,
     run,
-    rule: "real SSH (password) and TLS (client key) session establishment against the scripted peers with a capturing tracing subscriber (span creation and close events included, so that every #[instrument]ed argument is rendered); 8 filter directives from 'error' to 'trace' incl. per-target ones; 8 passwords (quotes, whitespace, backslash, non-ASCII, XML metacharacters); outcomes: success + one rpc, rejected credentials, peer closes inside the hello. Oracle: no line whose target is one of the repository's crates contains the secret in clear, Debug-escaped, hex (4 spellings), base64 (2) or byte-list (2) form; for the key: the DER, two 16-byte windows of it, and each PEM body line. Non-trivial = more than 200 bytes of log text captured; distinct = distinct event-log hash",
+    rule: "real SSH (password) and TLS (client key) session establishment against the scripted peers with a capturing tracing subscriber (span creation and close events included, so that every #[instrument]ed argument is rendered); 8 filter directives from 'error' to 'trace' incl. per-target ones; 8 passwords (quotes, whitespace, backslash, non-ASCII, XML metacharacters); outcomes: success + one rpc, rejected credentials, peer closes inside the hello. Oracle: no line whose target is one of the repository's crates contains the secret in clear, Debug-escaped, hex (4 spellings), base64 (2) or byte-list (2) form; for the key: the DER, two 16-byte windows of it, and each PEM body line. Agent part (3 runs in 7): the agent executable (the repository's own bin source, argument parsing, global subscriber, PEM readers) is started as a child process with -qq..-vvv, RUST_LOG unset / trace / per-target, RUST_BACKTRACE 0/1, one-shot or daemon mode, logging to stderr or to a log file, against a `remote` target on a closed loopback port; the client key file (PKCS#8 EC, SEC1 EC, PKCS#1 RSA) has met one of 19 storage faults: intact, truncated at any offset, line ends lost (joined by blanks / by nothing, with or without a final LF), CR-only, CRLF, one flipped bit, leading garbage / BOM / bag attributes, torn BEGIN line, missing or torn END line, unknown label, empty, missing, a directory, swapped with the certificate, key+certificate in one file (both orders), re-wrapped to other line widths. Oracle: nothing the process writes (stderr, stdout, log files; ANSI sequences removed) contains the DER, its private part or any 16-byte window of it in the ten encodings, or any 20-character window of the private part of the PEM text, except in a log line whose target is a dependency. Non-trivial = more than 200 bytes of log text captured (agent part: any output, or quiet mode); distinct = distinct event-log hash",
     components: &[
         ("netconf session.rs / transport/ssh.rs / transport/tls.rs with their tracing instrumentation", "real"),
         ("tracing, tracing-subscriber (fmt layer, EnvFilter)", "real; installed per run with a thread-local default dispatcher"),
         ("peer", "scripted: russh server / tokio-rustls acceptor"),
+        ("agent executable: junos-agent/src/bin/bgpfu-junos-agent.rs, cli.rs (argument parsing, logging set-up), netconf/mod.rs, netconf/pem.rs, task.rs", "real, as a child process (target/release/agentbin = the repository's bin source linked to the agent library)"),
+        ("key / certificate files", "real files in a scratch directory, written with the injected storage fault"),
+        ("NETCONF server for the agent executable", "absent: closed loopback port (every attempt fails after the files were read)"),
     ],
     assumptions: &[
-        "the agent binary's own start-up path (argument parsing, PEM file reading, global subscriber) is not executed in-process; its logging statements print paths, not contents (by reading)",
+        "the agent executable runs on the real clock (it is a child process); only its output is observed, and a daemon is stopped after its first 'updater job failed' line, so no timing enters the verdict",
+        "the agent executable's successful TLS handshake is not exercised as a child process; the library side of it is covered in-process by the R-sim TLS runs",
         "lines emitted by dependencies (russh, rustls) are scanned too but reported as observations only: the statement is about what the library and agent emit",
     ],
     watchdog_s: 20,
